@@ -18,3 +18,23 @@ Theorem C09_repeat_same_disclosures :
     exists k1 k2, p1 = presentation_prefix (h_jwt h) (selected h) ++ k1 /\ p2 = presentation_prefix (h_jwt h) (selected h) ++ k2.
 Proof. exact build_repeatable. Qed.
 Print Assumptions C09_repeat_same_disclosures.
+
+(* The commitment, read from the verifier's side: if Verifier::verify_raw accepts a presentation token' that
+   carries the KB-JWT kb, and kb's sd_hash is the hash (under the token's _sd_alg) of the presentation prefix
+   serialise jwt ds "" it was built for, and the hash is injective, then token' consists of exactly that issuer
+   JWT and exactly that disclosure list, in that order: nothing can be added, dropped, reordered or swapped
+   under an existing KB-JWT. *)
+Require Import SDJ.Split SDJ.C05Proofs SDJ.C09Proofs.
+Theorem C09_kb_commits_to_exactly_this_presentation :
+  forall (O : oracles) token' kbpol hdr claims jwt' ds' kb jwt ds alg0,
+  (forall x y, o_hash O alg0 x = o_hash O alg0 y -> x = y) ->
+  verifier_verify_raw O token' kbpol = Val (hdr, claims, ds') ->
+  sd_jwt_parts token' = (jwt', ds', Some kb) ->
+  token' = serialise jwt' ds' kb ->
+  Forall (fun x => contains tilde x = false) (jwt' :: ds') -> contains tilde kb = false ->
+  Forall (fun x => contains tilde x = false) (jwt :: ds) ->
+  (forall h' kc, verify_kb O kb (jget "cnf" claims) = Val (h', kc) -> jget "sd_hash" kc = JStr (o_hash O alg0 (serialise jwt ds ""))) ->
+  (forall a alg, jget "_sd_alg" claims = JStr a -> parse_halg a = Some alg -> alg = alg0) ->
+  jwt' = jwt /\ ds' = ds.
+Proof. exact kb_commits. Qed.
+Print Assumptions C09_kb_commits_to_exactly_this_presentation.
